@@ -578,6 +578,12 @@ impl<'a> Ctx<'a> {
                 let m = self.r.pick(&self.modules).clone();
                 pool.push((member(id(&m), "rows"), Kind::Record, false, Some("k")));
                 pool.push((member(id(&m), "rows"), Kind::Record, false, Some("k")));
+                // one branch is a data list, the other a script list: which kind of path an item
+                // would have is not decidable at compile time, so the items receive none
+                {
+                    pool.push((Expr::Cond(Box::new(id("flag")), Box::new(id("list")), Box::new(member(id(&m), "rows"))), Kind::Record, false, Some("k")));
+                    pool.push((Expr::Cond(Box::new(id("flag")), Box::new(member(id(&m), "rows")), Box::new(id("list"))), Kind::Record, false, Some("k")));
+                }
             }
         }
         if self.f.nested_for {
@@ -675,6 +681,8 @@ impl<'a> Ctx<'a> {
                     match root {
                         Expr::Arr(_) => true,
                         Expr::Id(n) => self.modules.iter().any(|m| m == n) || self.scope.iter().any(|sv| &sv.name == n && sv.no_path),
+                        // a data list in one branch and a script module's list in the other
+                        Expr::Cond(_, a, b) => [a, b].iter().any(|e| matches!(&***e, Expr::Member(r, _) if matches!(&**r, Expr::Id(n) if self.modules.iter().any(|m| m == n)))),
                         _ => false,
                     }
                 };
